@@ -4,6 +4,7 @@ from analysis.facts import AnchorError
 from analysis import terms as T
 from analysis import chessref as R
 
+THOROUGH_CONFIGS = ['release', 'nobmi2', 'movegen-alone']
 LEVEL = "other"
 EXHAUSTIVE = True
 DECIDED = ("R1 from_u8 of Pos/File/Rank/Piece/Color/Side maps v to the variant with discriminant v and everything from the variant count on to None (all 256 bytes); "
